@@ -68,7 +68,7 @@ RofSP(t) == t - 100
 HofHT(t) == t - 200
 MapKinds == {"map", "starmap", "doublestarmap"}
 PoolStr == Cls \o "-0"
-FnName  == "w"
+FnName  == "wK"
 
 NoTask == [st |-> "none", pc |-> "new", must |-> FALSE, wait |-> "none", fst |-> "none", dres |-> "none",
            etok |-> "", cbs |-> <<>>, again |-> FALSE, fin |-> "no", pend |-> "none", ptok |-> "", gout |-> "ret",
